@@ -62,6 +62,8 @@ func (hs Handshake) MarshalBinary() ([]byte, error) {
 
 	e.WriteString(hs.Token)
 
+	e.Flush()
+
 	return buff.Bytes(), nil
 }
 
